@@ -3,6 +3,7 @@ package main
 import (
 	"encoding/json"
 	"fmt"
+	"os"
 	"regexp/syntax"
 	"sort"
 	"strings"
@@ -74,6 +75,29 @@ func checkC02(c *Ctx) error {
 		texts = append(texts, t)
 	}
 	sort.Strings(texts)
+	// what `generate` puts on stdout is the expression and nothing else, at every log level
+	// (a sample of the programs, each at two other levels)
+	lvRoot, err := c.newSandbox("loglevel")
+	if err != nil {
+		return err
+	}
+	os.MkdirAll(lvRoot+"/regex-assembly", 0o755)
+	var lvRuns int64
+	stepLv := len(texts)/40 + 1
+	parallel((len(texts)+stepLv-1)/stepLv, 8, func(k int) {
+		t := texts[k*stepLv]
+		prog := strings.Join(outs[t], "\n") + "\n"
+		for _, lv := range []string{"trace", "debug", "disabled"} {
+			r := c.runCLI(lvRoot, prog, "-l", lv, "-d", lvRoot, "regex", "generate", "-")
+			atomic.AddInt64(&lvRuns, 1)
+			if r.Exit != 0 || r.Stdout != t {
+				c.violation("output-text", map[string]any{"why": "with log level " + lv + " the standard output of generate is not the expression alone", "program": outs[t],
+					"expression": t, "stdout": r.Stdout, "exit": r.Exit})
+				return
+			}
+		}
+	})
+	c.Cov["runs_at_other_log_levels"] = lvRuns
 	// Go-side part of the statement: one line, parses as an RE2 expression
 	var scanList []string
 	for _, t := range texts {
